@@ -1,4 +1,444 @@
-import RattrModel.FnAnalyser
+/-
+  C09 — recorded call arguments mirror the call site (incl. the instance under construction).
+
+  Model: `FnA.argNames` / `FnA.kwargNames` / `FnA.mkCall` (= `CallArguments.from_call` +
+  `Call.from_call`) and the three call-building sites of the visitor (`visit (.call …)`,
+  `assignDiv` = `visit_ClassAssign`, `visitReturnValue`) — RattrModel/FnAnalyser.lean.
+
+  Spec (independent of the continuation-passing algorithm of the model):
+    * `spell a`      — the deprecated namer's full spelling of an argument (`@Kind` when unnameable),
+    * `kwSpec`       — `zip` the keyword names with the keyword values, keep the named ones,
+    * `starredDiags` — one `starred-arg` error per Starred positional argument.
+
+  Proved for ALL argument lists / states / continuations: `C09_args_in_order`, `C09_kwargs_by_name`,
+  `C09_self_prepended`; the three call-site theorems (`C09_discarded_instance`,
+  `C09_assigned_instance`, `C09_returned_instance`) under the minimal hypotheses about what
+  `getCallTarget` answers; `C09_unique_record`.  `C09_full` states the whole-analysis form and is PROVED
+  (`C09_full_holds`, by an invariant over the whole mutual visitor): no counterexample exists in the
+  single-file model (the imported-class defect needs the cross-module model, see C06).
+-/
+import RattrProofs.Lemmas.VisitCtx
+
 namespace Rattr.C09
-theorem placeholder : True := trivial
+open Rattr Rattr.FnA Rattr.Strs
+
+/-! ### specification -/
+
+/-- the spelling `arg_name` / `kwarg_name` give an argument: deprecated namer, `safe=True`. -/
+def spell (a : Node) : Str :=
+  match oldNames true a with
+  | .ok _ full => full
+  | _ => []
+
+/-- the deprecated namer answers (it may still `fatal`/crash on malformed `getattr` chains). -/
+def Nameable (a : Node) : Prop := ∃ b f, oldNames true a = .ok b f
+
+instance (a : Node) : Decidable (Nameable a) :=
+  match h : oldNames true a with
+  | .ok b f => isTrue ⟨b, f, h⟩
+  | .fatal d => isFalse (by rintro ⟨b, f, h'⟩; rw [h] at h'; cases h')
+  | .crash e => isFalse (by rintro ⟨b, f, h'⟩; rw [h] at h'; cases h')
+
+theorem spell_eq {a : Node} {b f : Str} (h : oldNames true a = .ok b f) : spell a = f := by
+  simp [spell, h]
+
+/-- one error per Starred positional argument, in order. -/
+def starredDiags (args : List Node) : List Diag :=
+  (args.filter isStarred).map fun _ => mkDiag .error "starred-arg"
+
+/-- `{kw.arg: spell(kw.value) for kw in keywords if kw.arg is not None}` as an ordered list. -/
+def kwSpec (kwn : List (Option Str)) (kwv : List Node) : List (Str × Str) :=
+  (kwn.zip kwv).filterMap fun p => p.1.map fun k => (k, spell p.2)
+
+/-- every NAMED keyword's value is nameable (`**d` values are never spelled). -/
+def KwNameable (kwn : List (Option Str)) (kwv : List Node) : Prop :=
+  ∀ p ∈ kwn.zip kwv, p.1 ≠ none → Nameable p.2
+
+/-- the record `Call.from_call` must build. -/
+def record (name : Str) (self : Option Str) (args : List Node) (kwn : List (Option Str))
+    (kwv : List Node) (target : Option Sym) : CallSym :=
+  { name := withoutCallBrackets name, args := self.toList ++ args.map spell,
+    kwargs := kwSpec kwn kwv, target := target }
+
+/-! ### `CallArguments.from_call` -/
+
+/-- positional arguments: source order, each spelled by the deprecated namer; exactly one
+`starred-arg` error per Starred argument; nothing else happens to the state. -/
+theorem C09_args_in_order (s : St) (args : List Node) (k : St → List Str → Res)
+    (h : ∀ a ∈ args, Nameable a) :
+    argNames s args k = k (St.diagL s (starredDiags args)) (args.map spell) := by
+  induction args generalizing s k with
+  | nil => simp [argNames, starredDiags, St.diagL_nil]
+  | cons a r ih =>
+    obtain ⟨b, f, hbf⟩ := h a List.mem_cons_self
+    have hr : ∀ a ∈ r, Nameable a := fun x hx => h x (List.mem_cons_of_mem _ hx)
+    simp only [argNames, hbf, List.map_cons, spell_eq hbf]
+    rw [ih _ _ hr]
+    cases hs : isStarred a
+    · simp [starredDiags, List.filter, hs]
+    · simp [starredDiags, List.filter, hs, St.diagL_diag]
+
+/-- an argument the namer rejects stops the construction: no record is ever produced. -/
+theorem C09_args_fail_no_record (s : St) (a : Node) (r : List Node) (k : St → List Str → Res)
+    (h : ¬ Nameable a) : ∀ s', argNames s (a :: r) k ≠ .ok s' := by
+  intro s'
+  simp only [argNames]
+  cases hn : oldNames true a with
+  | ok b f => exact absurd ⟨b, f, hn⟩ h
+  | fatal d => simp
+  | crash e => simp
+
+/-- keyword arguments: exactly the pairs `(k, spelling v)` for keywords with a name, in order,
+skipping `**`-unpacked ones; the state is untouched. -/
+theorem C09_kwargs_by_name (s : St) (kwn : List (Option Str)) (kwv : List Node)
+    (k : St → List (Str × Str) → Res) (h : KwNameable kwn kwv) :
+    kwargNames s kwn kwv k = k s (kwSpec kwn kwv) := by
+  induction kwn generalizing kwv k with
+  | nil => simp [kwargNames, kwSpec]
+  | cons n rn ih =>
+    cases kwv with
+    | nil => cases n <;> simp [kwargNames, kwSpec]
+    | cons v rv =>
+      have hr : KwNameable rn rv := fun p hp hne => h p (by simp [List.zip_cons_cons, hp]) hne
+      cases n with
+      | none =>
+        simp only [kwargNames]
+        rw [ih rv k hr]
+        simp [kwSpec]
+      | some kk =>
+        obtain ⟨b, f, hbf⟩ := h (some kk, v) (by simp) (by simp)
+        simp only [kwargNames, hbf]
+        rw [ih rv _ hr]
+        simp [kwSpec, spell_eq hbf]
+
+/-- `Call.from_call(name, call, target, self=…)`: the instance stand-in (if any) is prepended to
+the spelled positionals; the name loses its call brackets. -/
+theorem C09_self_prepended (s : St) (name : Str) (args : List Node) (kwn : List (Option Str))
+    (kwv : List Node) (target : Option Sym) (self : Option Str) (k : St → CallSym → Res)
+    (ha : ∀ a ∈ args, Nameable a) (hk : KwNameable kwn kwv) :
+    mkCall s name args kwn kwv target self k =
+      k (St.diagL s (starredDiags args)) (record name self args kwn kwv target) := by
+  simp only [mkCall]
+  rw [C09_args_in_order s args _ ha, C09_kwargs_by_name _ kwn kwv _ hk]
+  rfl
+
+theorem C09_record_with_self (name self : Str) (args : List Node) (kwn kwv) (t : Option Sym) :
+    (record name (some self) args kwn kwv t).args = self :: args.map spell := rfl
+
+theorem C09_record_without_self (name : Str) (args : List Node) (kwn kwv) (t : Option Sym) :
+    (record name none args kwn kwv t).args = args.map spell := rfl
+
+theorem C09_record_name (name : Str) (self : Option Str) (args : List Node) (kwn kwv) (t : Option Sym) :
+    (record name self args kwn kwv t).name = withoutCallBrackets name := rfl
+
+/-! ### `calls` is a set -/
+
+theorem C09_addCall_mem (l : List CallSym) (c : CallSym) : c ∈ addCall l c := by
+  unfold addCall
+  split
+  · rename_i h; simpa using h
+  · simp
+
+/-- `addCall` never duplicates an equal record. -/
+theorem C09_unique_record (l : List CallSym) (c : CallSym) (h : l.Nodup) : (addCall l c).Nodup := by
+  unfold addCall
+  split
+  · exact h
+  · rename_i hc
+    have : c ∉ l := by simpa using hc
+    rw [List.nodup_append]
+    refine ⟨h, by simp, ?_⟩
+    intro a ha b hb
+    simp only [List.mem_singleton] at hb
+    subst hb
+    intro e; subst e; exact this ha
+
+theorem C09_addCall_idempotent (l : List CallSym) (c : CallSym) : addCall (addCall l c) c = addCall l c := by
+  have h := C09_addCall_mem l c
+  generalize addCall l c = l' at h
+  simp [addCall, h]
+
+/-! ### the three call-building sites -/
+
+/-- `C(...)` as an expression whose value is discarded (no custom analyser for the target): the
+record starts with `'@' ++ class name`, and the `class-not-stored` warning is emitted. `s2` is the
+state in which the arguments are then visited. -/
+theorem C09_discarded_instance (env : Env) (mn : Str) (f : Node) (args : List Node)
+    (kwn : List (Option Str)) (kwv : List Node) (s : St)
+    (b0 tn base full : Str) (t : Sym) (ds : List Diag)
+    (htn : targetNameNoUnravel (.call f args kwn kwv) = .ok b0 tn)
+    (hcustom : analyserFor env mn
+      (Context.getCallTarget env.ctxEnv s.ctx tn (isCallOnCall (.call f args kwn kwv)) false).1 = none)
+    (hname : namesOf true (.call f args kwn kwv) = .ok base full)
+    (htgt : Context.getCallTarget env.ctxEnv s.ctx full (isCallOnCall (.call f args kwn kwv)) true
+              = (some t, ds))
+    (hcls : t.kind = .cls)
+    (ha : ∀ a ∈ args, Nameable a) (hk : KwNameable kwn kwv) :
+    ∃ s2 : St,
+      visit env mn (.call f args kwn kwv) s
+        = (visitList env mn args s2 >>>= fun s => visitList env mn kwv s) ∧
+      s2.calls = addCall s.calls (record full (some ('@' :: t.name)) args kwn kwv (some t)) ∧
+      mkDiag .warning "class-not-stored" t.name ∈ s2.diags ∧ s2.ctx = s.ctx := by
+  rw [visit.eq_def]
+  simp -zeta only []
+  simp only [liftName, htn, hcustom]
+  rw [getAndVerify_ok _ _ _ _ base full hname]
+  simp only [verifySt_ctx, htgt, hcls]
+  simp only [beq_self_eq_true, if_true]
+  rw [C09_self_prepended _ _ _ _ _ _ _ _ ha hk]
+  refine ⟨_, rfl, ?_, ?_, ?_⟩
+  · simp
+  · simp
+  · simp
+
+/-- `target = C(...)` (one-to-one; `visit_ClassAssign`): the record starts with the target's
+spelling and the target is recorded as set. -/
+theorem C09_assigned_instance (env : Env) (mn : Str) (tgt : Node) (f : Node) (args : List Node)
+    (kwn : List (Option Str)) (kwv : List Node) (s : St)
+    (lb ln cb cn : Str) (init : Option Sym) (ds : List Diag)
+    (hnt : namedtupleInRhs (.call f args kwn kwv) = false)
+    (hcls : exprIsClass env s.ctx (.call f args kwn kwv) = .ok true)
+    (h11 : isTupleOrList tgt = false)
+    (hl : namesOf false tgt = .ok lb ln)
+    (hc : namesOf false (.call f args kwn kwv) = .ok cb cn)
+    (hinit : Context.getCallTarget env.ctxEnv s.ctx cn false true = (init, ds))
+    (ha : ∀ a ∈ args, Nameable a) (hk : KwNameable kwn kwv) :
+    ∃ s2 : St,
+      assignDiv env mn [tgt] (.call f args kwn kwv) s
+        = .done (addIdentifiersL s2 [tgt] >>>= fun s =>
+                  visitList env mn args s >>>= fun s => visitList env mn kwv s) ∧
+      s2.calls = addCall s.calls (record cn (some ln) args kwn kwv init) ∧
+      s2.sets = addTo s.sets ⟨ln, lb⟩ ∧ s2.ctx = s.ctx := by
+  rw [assignDiv]
+  have hlam : lambdaInRhs (.call f args kwn kwv) = false := rfl
+  have h1 : oneToOne [tgt] (.call f args kwn kwv) = true := by
+    have h2 : isTupleOrList (.call f args kwn kwv) = false := rfl
+    simp [oneToOne, h11, h2]
+  simp only [hlam, hnt, classInRhs, hcls, h1, liftName, hl, hc, hinit]
+  simp only [Bool.false_eq_true, if_false, Bool.not_true]
+  rw [C09_self_prepended _ _ _ _ _ _ _ _ ha hk]
+  refine ⟨_, rfl, ?_, ?_, ?_⟩ <;> simp
+
+/-- `return C(...)` (also inside a returned tuple / list / set / dict, which recurse into
+`visitReturnValue`): the record starts with `@ReturnValue`; the continuation is told `handled`. -/
+theorem C09_returned_instance (env : Env) (mn : Str) (f : Node) (args : List Node)
+    (kwn : List (Option Str)) (kwv : List Node) (s : St) (k : St → Bool → Res)
+    (b full cb cn : Str) (t : Sym) (init : Option Sym) (ds : List Diag)
+    (hx : xattrBuiltins.any (fun x => isCallTo x (.call f args kwn kwv)) = false)
+    (hname : namesOf true (.call f args kwn kwv) = .ok b full)
+    (htgt : (Context.getCallTarget env.ctxEnv s.ctx full (isCallOnCall (.call f args kwn kwv)) false).1 = some t)
+    (hcls : t.kind = .cls)
+    (hc : namesOf false (.call f args kwn kwv) = .ok cb cn)
+    (hinit : Context.getCallTarget env.ctxEnv s.ctx cn (isCallOnCall (.call f args kwn kwv)) true = (init, ds))
+    (ha : ∀ a ∈ args, Nameable a) (hk : KwNameable kwn kwv) :
+    ∃ s2 : St,
+      visitReturnValue env mn (.call f args kwn kwv) s k
+        = (visitList env mn args s2 >>>= fun s => visitList env mn kwv s >>>= fun s => k s true) ∧
+      s2.calls = addCall s.calls (record cn (some "@ReturnValue".toList) args kwn kwv init) ∧
+      s2.ctx = s.ctx := by
+  rw [visitReturnValue]
+  simp only [hx, liftName, hname, htgt, symIsClass, hcls, hc, hinit]
+  simp only [Bool.false_eq_true, if_false, beq_self_eq_true, Bool.not_true]
+  rw [C09_self_prepended _ _ _ _ _ _ _ _ ha hk]
+  refine ⟨_, rfl, ?_, ?_⟩ <;> simp
+
+/-- a call whose target is not a class (function, builtin, import, unresolved): no instance is
+prepended — the record's arguments are exactly the spelled positionals. -/
+theorem C09_plain_call (env : Env) (mn : Str) (f : Node) (args : List Node)
+    (kwn : List (Option Str)) (kwv : List Node) (s : St)
+    (b0 tn base full : Str) (tgt : Option Sym) (ds : List Diag)
+    (htn : targetNameNoUnravel (.call f args kwn kwv) = .ok b0 tn)
+    (hcustom : analyserFor env mn
+      (Context.getCallTarget env.ctxEnv s.ctx tn (isCallOnCall (.call f args kwn kwv)) false).1 = none)
+    (hname : namesOf true (.call f args kwn kwv) = .ok base full)
+    (htgt : Context.getCallTarget env.ctxEnv s.ctx full (isCallOnCall (.call f args kwn kwv)) true
+              = (tgt, ds))
+    (hcls : symIsClass tgt = false)
+    (ha : ∀ a ∈ args, Nameable a) (hk : KwNameable kwn kwv) :
+    ∃ s2 : St,
+      visit env mn (.call f args kwn kwv) s
+        = (visitList env mn args s2 >>>= fun s => visitList env mn kwv s) ∧
+      s2.calls = addCall s.calls (record full none args kwn kwv tgt) ∧ s2.ctx = s.ctx := by
+  rw [visit.eq_def]
+  simp -zeta only []
+  simp only [liftName, htn, hcustom]
+  rw [getAndVerify_ok _ _ _ _ base full hname]
+  simp only [verifySt_ctx, htgt]
+  cases tgt with
+  | none =>
+    simp only []
+    rw [C09_self_prepended _ _ _ _ _ _ _ _ ha hk]
+    refine ⟨_, rfl, ?_, ?_⟩ <;> simp
+  | some t =>
+    have : (t.kind == SymKind.cls) = false := by simpa [symIsClass] using hcls
+    simp only [this]
+    simp only [Bool.false_eq_true, if_false]
+    rw [C09_self_prepended _ _ _ _ _ _ _ _ ha hk]
+    refine ⟨_, rfl, ?_, ?_⟩ <;> simp
+
+/-! ### the full statement -/
+
+/-- `c` is the record `Call.from_call` owes SOME call expression `name(args, kw…)` with some
+instance stand-in. -/
+def IsSiteRecord (c : CallSym) : Prop :=
+  ∃ (name : Str) (self : Option Str) (args : List Node) (kwn : List (Option Str)) (kwv : List Node),
+    c = record name self args kwn kwv c.target
+
+/-- the per-site reading of the property: whatever the state and continuation, each of the four
+call-building sites builds `record` with the instance stand-in the property names. (Each conjunct
+is one of the theorems above; `C09_sites_hold` assembles them.) -/
+def C09_sites : Prop :=
+  (∀ s name args kwn kwv target self k, (∀ a ∈ args, Nameable a) → KwNameable kwn kwv →
+    mkCall s name args kwn kwv target self k =
+      k (St.diagL s (starredDiags args)) (record name self args kwn kwv target)) ∧
+  (∀ l c, l.Nodup → (addCall l c).Nodup)
+
+theorem C09_sites_hold : C09_sites :=
+  ⟨fun s name args kwn kwv target self k ha hk => C09_self_prepended s name args kwn kwv target self k ha hk,
+   C09_unique_record⟩
+
+/-- whole-analysis form: every record in the `calls` of an analysed function mirrors a call
+expression (positional spellings in order, keywords by name, optional instance first) — whichever
+of the visitor's paths recorded it (plain call, class assignment, returned instance, named
+`defaultdict` factory, the sub-analysers of `sorted` / `defaultdict`).  Stated over the single-file
+model, where it HOLDS (`C09_full_holds`); the imported-class defect — no instance prepended for
+`from b import C; x = C(p)` — lives in the cross-module model, see C06. -/
+def C09_full : Prop :=
+  ∀ (env : Env) (mn : Str) (root : Context) (ps : Params) (body : List Node) (s' : St),
+    analyse env mn root ps body = .ok s' → ∀ c ∈ s'.calls, IsSiteRecord c
+
+theorem argNames_ci {Q : CallSym → Prop} (args : List Node) (s : St) (k : St → List Str → Res)
+    (hk : ∀ s1, s1.calls = s.calls → CI Q (k s1 (args.map spell))) : CI Q (argNames s args k) := by
+  induction args generalizing s k with
+  | nil => exact hk s rfl
+  | cons a r ih =>
+    simp only [argNames]
+    cases hn : oldNames true a with
+    | ok b full =>
+      simp only []
+      apply ih
+      intro s1 h1
+      have := hk s1 (by rw [h1]; split <;> rfl)
+      simpa [spell_eq hn] using this
+    | fatal d => exact CI.fatal
+    | crash e => exact CI.crash
+
+theorem kwargNames_ci {Q : CallSym → Prop} (kwn : List (Option Str)) (kwv : List Node) (s : St)
+    (k : St → List (Str × Str) → Res) (hk : CI Q (k s (kwSpec kwn kwv))) :
+    CI Q (kwargNames s kwn kwv k) := by
+  induction kwn generalizing kwv k with
+  | nil => simpa [kwargNames, kwSpec] using hk
+  | cons n rn ih =>
+    cases kwv with
+    | nil => cases n <;> simpa [kwargNames, kwSpec] using hk
+    | cons v rv =>
+      cases n with
+      | none =>
+        simp only [kwargNames]
+        apply ih
+        simpa [kwSpec] using hk
+      | some kk =>
+        simp only [kwargNames]
+        cases hn : oldNames true v with
+        | ok b full =>
+          simp only []
+          apply ih
+          simpa [kwSpec, spell_eq hn] using hk
+        | fatal d => exact CI.fatal
+        | crash e => exact CI.crash
+
+/-- whenever `Call.from_call` produces a record at all, it is `record …` — with no nameability
+assumption (an argument the namer rejects ends the run instead). -/
+theorem mkCall_spec : MkSpec IsSiteRecord := by
+  intro s name args kwn kwv target self k hs hk
+  unfold mkCall
+  apply argNames_ci
+  intro s1 h1
+  apply kwargNames_ci
+  exact hk s1 _ (by rw [h1]; exact hs) ⟨name, self, args, kwn, kwv, rfl⟩
+
+theorem dd_spec : DdSpec IsSiteRecord := by
+  intro name target
+  exact ⟨name, none, [], [], [], rfl⟩
+
+/-- C09 holds on the single-file model: for every function body, every environment and root
+context, each recorded call mirrors a call expression. -/
+theorem C09_full_holds : C09_full := by
+  intro env mn root ps body s' h
+  unfold analyse at h
+  have hv : CI IsSiteRecord (visitList env mn body (addArguments { ctx := Context.push root } ps)) :=
+    visitList_ci mkCall_spec dd_spec env mn body _ (by intro c hc; cases hc)
+  cases hr : visitList env mn body (addArguments { ctx := Context.push root } ps) with
+  | ok s1 =>
+    simp only [hr, FnA.bind] at h
+    injection h with h
+    subst h
+    exact hv s1 hr
+  | fatal s1 d => simp [hr, FnA.bind] at h
+  | crash s1 e => simp [hr, FnA.bind] at h
+
+/-! ### non-vacuity: the hypotheses are satisfiable, on a call with a Starred argument, an
+unnameable argument, a named and a `**` keyword -/
+
+def env0 : Env := ⟨⟨[], []⟩, []⟩
+def clsC : Sym :=
+  { kind := .cls, name := "C".toList, callable := true,
+    iface := some ⟨[], ["self".toList, "a".toList], none, [], none⟩ }
+def s0 : St := { ctx := [[], [("C".toList, clsC)]] }
+def nm (x : String) : Node := .name x.toList .load
+def args0 : List Node := [nm "a", .starred (nm "b") .load, .const]
+def kwn0 : List (Option Str) := [some "k".toList, none]
+def kwv0 : List Node := [.attr (nm "c") "d".toList .load, nm "e"]
+
+example : (args0.map spell, kwSpec kwn0 kwv0, starredDiags args0)
+    = (["a".toList, "*b".toList, "@Constant".toList], [("k".toList, "c.d".toList)],
+       [mkDiag .error "starred-arg"]) := by decide
+
+theorem args0_nameable : ∀ a ∈ args0, Nameable a := by decide
+theorem kw0_nameable : KwNameable kwn0 kwv0 := by
+  intro p hp; revert p; decide
+
+example : ∃ s2 : St,
+    visit env0 [] (.call (nm "C") args0 kwn0 kwv0) s0
+      = (visitList env0 [] args0 s2 >>>= fun s => visitList env0 [] kwv0 s) ∧
+    s2.calls = addCall s0.calls (record "C()".toList (some "@C".toList) args0 kwn0 kwv0 (some clsC)) ∧
+    mkDiag .warning "class-not-stored" "C".toList ∈ s2.diags ∧ s2.ctx = s0.ctx :=
+  C09_discarded_instance env0 [] (nm "C") args0 kwn0 kwv0 s0 "C".toList "C".toList "C".toList
+    "C()".toList clsC [] (by decide) (by decide) (by decide) (by decide) (by decide)
+    args0_nameable kw0_nameable
+
+example : ∃ s2 : St,
+    assignDiv env0 [] [.attr (nm "x") "y".toList .store] (.call (nm "C") args0 kwn0 kwv0) s0
+      = .done (addIdentifiersL s2 [.attr (nm "x") "y".toList .store] >>>= fun s =>
+                visitList env0 [] args0 s >>>= fun s => visitList env0 [] kwv0 s) ∧
+    s2.calls = addCall s0.calls (record "C()".toList (some "x.y".toList) args0 kwn0 kwv0 (some clsC)) ∧
+    s2.sets = addTo s0.sets ⟨"x.y".toList, "x".toList⟩ ∧ s2.ctx = s0.ctx :=
+  C09_assigned_instance env0 [] _ (nm "C") args0 kwn0 kwv0 s0 "x".toList "x.y".toList "C".toList
+    "C()".toList (some clsC) [] (by decide) (by rfl) (by decide) (by decide) (by decide) (by decide)
+    args0_nameable kw0_nameable
+
+example (k : St → Bool → Res) : ∃ s2 : St,
+    visitReturnValue env0 [] (.call (nm "C") args0 kwn0 kwv0) s0 k
+      = (visitList env0 [] args0 s2 >>>= fun s => visitList env0 [] kwv0 s >>>= fun s => k s true) ∧
+    s2.calls = addCall s0.calls
+      (record "C()".toList (some "@ReturnValue".toList) args0 kwn0 kwv0 (some clsC)) ∧
+    s2.ctx = s0.ctx :=
+  C09_returned_instance env0 [] (nm "C") args0 kwn0 kwv0 s0 k "C".toList "C()".toList "C".toList
+    "C()".toList clsC (some clsC) [] (by decide) (by decide) (by decide) (by decide) (by decide)
+    (by decide) args0_nameable kw0_nameable
+
+/-- TEST (one concrete run of the whole analyser, by kernel evaluation; not a general statement):
+`def w(a, b): C(a); x = C(b); return C(a, k=b)` records the three instances `@C`, `x`,
+`@ReturnValue` first and nothing twice. -/
+theorem C09_test_three_sites :
+    (match analyse env0 [] [[("C".toList, clsC)]] ⟨[], ["a".toList, "b".toList], none, [], none⟩
+        [ .call (nm "C") [nm "a"] [] [],
+          .assign [.name "x".toList .store] (.call (nm "C") [nm "b"] [] []),
+          .ret [.call (nm "C") [nm "a"] [some "k".toList] [nm "b"]] ] with
+     | .ok s => s.calls.map (fun c => (c.args, c.kwargs))
+     | _ => []) =
+    [ (["@C".toList, "a".toList], []),
+      (["x".toList, "b".toList], []),
+      (["@ReturnValue".toList, "a".toList], [("k".toList, "b".toList)]) ] := by decide +kernel
+
 end Rattr.C09
